@@ -2,7 +2,7 @@
 # quick checks at several seeds on the current tree; prints everything that is not quiet
 for s in "$@"; do
   for id in C01 C02 C03 C04 C05 C06 C07 C08 C09 C10 C11 C12 C13 C14 C15 C16 C17 C18 C19 C20; do
-    out=$(VERIF_SEED=$s /verif/check $id --tier quick --no-evidence 2>&1); rc=$?
+    out=$(VERIF_SEED=$s $(dirname $0)/../check $id --tier quick --no-evidence 2>&1); rc=$?
     echo "seed=$s $id rc=$rc $(echo "$out" | head -1 | cut -c1-120)"
     [ $rc -ne 0 ] && echo "$out" | grep -E "VIOLATION|HARNESS|  violation" | cut -c1-400
   done
